@@ -21,6 +21,8 @@ import (
 	"fmt"
 	"strconv"
 	"strings"
+	"sync"
+	"sync/atomic"
 	"time"
 
 	"github.com/datastax/go-cassandra-native-protocol/frame"
@@ -126,10 +128,13 @@ func c13Accepted(max primitive.ProtocolVersion) []primitive.ProtocolVersion {
 	return out
 }
 
-func c13NewBed(max primitive.ProtocolVersion) (*px.Bed, error) {
+func c13NewBed(max primitive.ProtocolVersion, own ...primitive.ProtocolVersion) (*px.Bed, error) {
 	ver := max
 	if ver > primitive.ProtocolVersion4 {
 		ver = primitive.ProtocolVersion4
+	}
+	if len(own) > 0 && own[0] != 0 {
+		ver = own[0]
 	}
 	return px.NewBed(px.BedConfig{Hosts: 1, NumConns: 1, MaxVersion: max, Version: ver, HeartBeat: time.Hour, Idle: 2 * time.Hour,
 		KeepBodies: true, Keyspaces: []string{"ks1"}})
@@ -288,14 +293,20 @@ type c13Job struct {
 	Max  primitive.ProtocolVersion
 	Comp string
 	Mode string
+	// Ver: the proxy's own protocol version towards the backend when the embedder sets it independently of the maximum for
+	// clients (proxy.Config through the Go API; the command line refuses version > max): 0 = the usual min(max, v4)
+	Ver primitive.ProtocolVersion
 }
 
 func (j c13Job) String() string {
+	if j.Ver != 0 {
+		return fmt.Sprintf("%s/max=%s/comp=%s/mode=%s/own-version=%s", j.Kind, c13VerName(j.Max), j.Comp, j.Mode, c13VerName(j.Ver))
+	}
 	return fmt.Sprintf("%s/max=%s/comp=%s/mode=%s", j.Kind, c13VerName(j.Max), j.Comp, j.Mode)
 }
 
 func (j c13Job) scenario() map[string]interface{} {
-	return map[string]interface{}{"kind": "c13job", "job": j.Kind, "max": int(j.Max), "comp": j.Comp, "mode": j.Mode}
+	return map[string]interface{}{"kind": "c13job", "job": j.Kind, "max": int(j.Max), "comp": j.Comp, "mode": j.Mode, "ver": int(j.Ver)}
 }
 
 func runC13(c *Ctx) {
@@ -311,6 +322,10 @@ func runC13(c *Ctx) {
 	for _, m := range c13Maxes {
 		jobs = append(jobs, c13Job{Kind: "gate", Max: m}, c13Job{Kind: "unknown", Max: m})
 	}
+	// an embedder's configuration: the proxy's own version towards the backend above the maximum it accepts from clients
+	jobs = append(jobs, c13Job{Kind: "gate", Max: 3, Ver: 4}, c13Job{Kind: "gate", Max: 4, Ver: 0x41}, c13Job{Kind: "gate", Max: 4, Ver: 5}, c13Job{Kind: "unknown", Max: 3, Ver: 4})
+	// several connections that negotiated the same algorithm send large compressed frames at the same time
+	jobs = append(jobs, c13Job{Kind: "together", Max: 4, Comp: "lz4"}, c13Job{Kind: "together", Max: 0x42, Comp: "snappy"})
 	if c.Quick() {
 		jobs = append(jobs, c13Job{Kind: "startup", Max: 4}, c13Job{Kind: "startup", Max: 0x42})
 		for _, mode := range []string{"awaited", "pipelined"} {
@@ -336,6 +351,9 @@ func runC13(c *Ctx) {
 		if m, ok := c.Replay["max"].(float64); ok {
 			j.Max = primitive.ProtocolVersion(int(m))
 		}
+		if m, ok := c.Replay["ver"].(float64); ok {
+			j.Ver = primitive.ProtocolVersion(int(m))
+		}
 		c13RunJob(c, j)
 		return
 	}
@@ -345,7 +363,7 @@ func runC13(c *Ctx) {
 }
 
 func c13RunJob(c *Ctx, j c13Job) {
-	bed, err := c13NewBed(j.Max)
+	bed, err := c13NewBed(j.Max, j.Ver)
 	if err != nil {
 		c.R.Inconc("cannot start bed for " + j.String() + ": " + err.Error())
 		return
@@ -360,6 +378,8 @@ func c13RunJob(c *Ctx, j c13Job) {
 		c13Startup(c, bed, j)
 	case "orders":
 		c13Orders(c, bed, j)
+	case "together":
+		c13Together(c, bed, j)
 	}
 	c13BackendRule(c.R, bed, j)
 }
@@ -1363,4 +1383,60 @@ func c13EmptyCompressed(alg string) [][]byte {
 		return [][]byte{{0}}
 	}
 	return nil
+}
+
+// c13Together ("switches that client connection - and only that one - ... in both directions"): eight connections negotiate
+// the same algorithm and each asks, in compressed frames of ~100 KB (the statement is padded with blanks), for one column of
+// system.local that no other connection asks for.  The proxy answers these itself, so what comes back depends on nothing but
+// what the proxy made of this connection's own frame: it must be the column this connection asked for.
+func c13Together(c *Ctx, bed *px.Bed, j c13Job) {
+	r := c.R
+	cols := []string{"key", "rpc_address", "data_center", "rack", "tokens", "release_version", "partitioner", "cluster_name"}
+	n := c.Pick(150, 1500)
+	var wg sync.WaitGroup
+	var wrong, none, asked int64
+	var first atomic.Value
+	for i, col := range cols {
+		cl, err := bed.ReadyClient(primitive.ProtocolVersion4, j.Comp)
+		if err != nil {
+			r.Inconc("together: handshake: " + err.Error())
+			continue
+		}
+		wg.Add(1)
+		go func(i int, col string, cl *rawcql.Client) {
+			defer wg.Done()
+			defer cl.Close()
+			q := "SELECT " + col + strings.Repeat(" ", 90000+1000*i) + " FROM system.local"
+			for k := 0; k < n; k++ {
+				f, err := cl.Call(int16(1+k%1000), &message.Query{Query: q, Options: &message.QueryOptions{Consistency: primitive.ConsistencyLevelOne}}, 20*time.Second)
+				atomic.AddInt64(&asked, 1)
+				if err != nil || f == nil {
+					atomic.AddInt64(&none, 1)
+					return
+				}
+				got := "?"
+				if df, derr := rawcql.DecodeWith(j.Comp, f); derr == nil {
+					if rr, ok := df.Body.Message.(*message.RowsResult); ok && rr.Metadata != nil && len(rr.Metadata.Columns) == 1 {
+						got = rr.Metadata.Columns[0].Name
+					} else {
+						got = fmt.Sprintf("%T", df.Body.Message)
+					}
+				}
+				if got != col {
+					atomic.AddInt64(&wrong, 1)
+					first.CompareAndSwap(nil, fmt.Sprintf("connection %d asked for column %q (request %d) and was answered with %q", i, col, k, got))
+				}
+			}
+		}(i, col, cl)
+	}
+	wg.Wait()
+	r.Eval(int(asked))
+	r.Obs("together_requests", int(asked))
+	r.NonTrivial("together/" + j.Comp)
+	if none > 0 {
+		r.Inconc(fmt.Sprintf("together/%s: %d connections got no reply", j.Comp, none))
+	}
+	if wrong > 0 {
+		r.Violate(mon.Violation{Signature: "C13/compression/frame-decoded-with-another-connection's-bytes/" + j.Comp, Detail: fmt.Sprintf("8 connections negotiated %s and sent compressed system reads of ~100 KB at the same time; %d of %d were answered as if the connection had sent something else: %v", j.Comp, wrong, asked, first.Load()), Scenario: j.scenario()})
+	}
 }
